@@ -4,7 +4,8 @@ index assignment; each access prints its value or the error class and context"""
 
 SEQS = ["[]", "[10]", "[10, 20, 30]", "[10, 20, 30, 40, 50]", "()", "(7,)", "(7, 8, 9, 6)", "\"\"", "\"a\"", "\"abcde\"", "\"hél€o\"",
         "0..4", "3..-2"]
-ODD = ["0.5", "-0.5", "1 / 0", "-(1 / 0)", "0 / 0", "nil", "\"1\"", "true", "[0]", "(0..1, 1)", "1000000000000000000", "-1000000000000000000", "2.0", "-0"]
+ODD = ["0.5", "-0.5", "1 / 0", "-(1 / 0)", "0 / 0", "nil", "\"1\"", "true", "[0]", "(0..1, 1)", "1000000000000000000", "-1000000000000000000", "2.0", "-0", "-9223372036854775808", "-9223372036854775809", "-10000000000000000000", "9223372036854775807",
+       "10000000000000000000", "-4611686018427387904", "4611686018427387904"]
 
 
 def length_of(seq):
